@@ -354,6 +354,10 @@ def run(ctx):
     ctx.guarded(r, QD.r_quadrant_tables)
     r = ctx.rule("R1u", "each sign-class case of Interval::atan2 evaluates the two corners of the box where the angle is largest and smallest (from the monotonicity of atan2 in y and x on that class)", 7)
     ctx.guarded(r, QD.r_atan2_corners)
+    from .. import corners as CRN
+
+    r = ctx.rule("R1v", "the interpreter's interval product and quotient take their bounds as the smallest / largest of all four corner combinations (the loops are unrolled symbolically)", 2)
+    ctx.guarded(r, CRN.r_corner_folds)
     r = ctx.rule("R5b", "Interval::contains includes both bounds (what the choice functions decide on)", 1)
     ctx.guarded(r, r_contains)
     r = ctx.rule("R5", "paired guards agree: sin / cos early exits (whole period with >=), mix's single-bit-pattern tests, atan2's branch cut", 5)
